@@ -115,6 +115,10 @@ def program(x):
         elif shape == "nonascii_prefix":     # multi-byte text in front of the placeholder, contributed by the prefix
             enum_attrs = ['#[strum(prefix = "\u00fcn\u00efc\u00f6d\u00e9/")]']
             bad = ['    #[strum(to_string = "{0}")]', "    Bad,"]
+        elif shape in ("escaped_brackets", "unicode_escaped_brackets", "raw_string"):
+            # the same placeholder, with the literal spelled through escapes / as a raw string (its VALUE is what counts)
+            src = {"escaped_brackets": '"\\x7bname\\x7d"', "unicode_escaped_brackets": '"a \\u{7b}0\\u{7d}"', "raw_string": 'r#"a {name}"#'}[shape]
+            bad = ['    #[strum(to_string = %s)]' % src, "    Bad,"]
         else:
             lit = {"index": "a {0}", "name": "a {name}", "spec": "{0:>4}", "nonascii_arg": "{\u00e9}", "nonascii_before": "\u6570\u91cf: {0}",
                    "nonascii_around": "\u00a3\u00a3\u00a3 {0} \u00a3"}[shape]
